@@ -91,6 +91,36 @@ def diff_oracle(root, case):
             raised = e
             break
         exp.extend(en)
+    # the per-node verdicts again through Rule objects that are re-used for all nodes of one name (first a fail-fast call,
+    # which may raise, then the collecting one): what one validation leaves in the object must not reach the next
+    if raised is None and len(N) <= 40:
+        from metapype.eml import rule as _mrule
+        robjs = {}
+        exp_r = []
+        try:
+            for n in N:
+                if n.name not in _mrule.node_mappings:
+                    en = []
+                    validate.node(n, en)
+                    exp_r.extend(en)
+                    continue
+                r = robjs.get(n.name)
+                if r is None:
+                    r = robjs[n.name] = _mrule.get_rule(n.name)
+                try:
+                    r.validate_rule(n)
+                except MetapypeRuleError:
+                    pass
+                en = []
+                r.validate_rule(n, en)
+                exp_r.extend(en)
+            if [entry_view(e, pos) for e in exp_r] != [entry_view(e, pos) for e in exp]:
+                probs.append(problem("reused_rule_objects_disagree", case,
+                                     expected=[(getattr(e[0], "name", e[0]), pos.get(id(e[2]), "?")) for e in exp[:12]],
+                                     observed=[(getattr(e[0], "name", e[0]), pos.get(id(e[2]), "?")) for e in exp_r[:12]], mode="collecting"))
+        except Exception as e:  # noqa
+            probs.append(problem("reused_rule_objects_disagree", case, expected="same entries as with fresh Rule objects",
+                                 observed=repr(e), mode="collecting"))
     got = []
     traised = None
     try:
@@ -266,6 +296,10 @@ def scale_bases():
                                                               kw(None), ["keywordThesaurus", "th", {}, []]]], 1),
         ("scale:repeated-leaves-invalid-first", ["keywordSet", None, {}, [kw("zz-unlisted"), kw("theme"), kw("zz-unlisted"), kw("theme")]], 1),
     ]
+    # unknown elements whose names are pieces of the word "metadata" (a membership test written as a substring test)
+    bad_kids = [["westBoundingCoordinate", "500", {}, []], ["zzUnknown", None, {}, [["title", "", {}, []]]]]
+    for nm_ in ("data", "meta", "a", "m", "", "tada", "metadat", "Metadata", "metadata "):
+        out.append((f"scale:unknown-named-{nm_!r}", ["dataset", None, {}, [["title", "t", {}, []], [nm_, None, {}, e3._clone(["x", None, {}, bad_kids])[3]]]], 0))
     for n in (101, 130, 1100):
         kids = [kw("theme", "") for _ in range(n)] + [kw("zz-unlisted"), ["keywordThesaurus", "", {}, []]]
         out.append((f"scale:{n}-invalid-siblings", ["keywordSet", None, {}, kids], 0))
